@@ -68,10 +68,15 @@ def strategy(tier):
     seed = st.integers(0, 2**31 - 1)
     row = st.integers(0, NF - 1)
 
+    shared_rng = st.shared(st.integers(0, 2**32 - 1).map(np.random.default_rng), key="rng")
+
     def pick(draw, options):
-        # categorical choice through a wide integer: sampled_from / one_of favour their first entries noticeably when a
-        # shard only gets ~50 examples (measured: 50% instead of 33%)
-        return options[draw(st.integers(0, 9999)) % len(options)]
+        # Categorical choice.  Hypothesis' integers / sampled_from / one_of are far from uniform when a shard only gets
+        # ~50-100 examples (measured: 18% of integers(0, 2**32) are exactly 0, 50% are = 0 mod 3), so the index is offset by
+        # a numpy Generator seeded with a Hypothesis-drawn integer: uniform for every non-degenerate seed, still
+        # shrinkable (seed -> 0, index -> 0).
+        rng = draw(shared_rng)
+        return options[(draw(st.integers(0, len(options) - 1)) + int(rng.integers(len(options)))) % len(options)]
 
     elem_op = st.one_of(
         st.tuples(st.just("add"), row, row, st.sampled_from([-2, -1, 1, 2])),
@@ -175,7 +180,11 @@ def strategy(tier):
             "seed": draw(seed), "with_error": draw(st.booleans()),
         }  # fmt: skip
 
-    return st.integers(0, 9999).flatmap(lambda i: flavor() if i % 5 < 2 else xgrid())
+    @st.composite
+    def any_case(draw):
+        return draw(flavor()) if pick(draw, [0, 0, 1, 1, 1]) == 0 else draw(xgrid())
+
+    return any_case()
 
 
 def _between(log, a, b, t):
@@ -289,8 +298,8 @@ def check_flavor(case):
     if bad.any():
         idx = tuple(int(v) for v in np.unravel_index(int(np.argmax(np.where(np.isfinite(dev), dev / scale, np.inf))), dev.shape))
         res.fail(
-            f"{ID}/flavor/{api}/side={side}/allclose-identity={near}",
-            f"{kinds} k={k}: reshaped.(I f)[{idx}] = {float(lhs[idx])!r}, T(op.f)[{idx}] = {float(rhs[idx])!r}, |dev| {dev[idx]:.3e} > "
+            f"{ID}/flavor/{api}/allclose-identity={near}",
+            f"{kinds} side={side} k={k}: reshaped.(I f)[{idx}] = {float(lhs[idx])!r}, T(op.f)[{idx}] = {float(rhs[idx])!r}, |dev| {dev[idx]:.3e} > "
             f"1e-10 * {scale[idx]:.3e}",
         )
     return res
